@@ -1275,6 +1275,15 @@ func (w *L1World) opRoleUpdate() {
 		}
 	case 2:
 		bi := ophosttypes.BatchInfo{Submitter: w.anyUser().String(), ChainType: ophosttypes.BatchInfo_CHAIN_TYPE_CELESTIA}
+		switch w.rng.Intn(4) {
+		case 0:
+			bi.ChainType = ophosttypes.BatchInfo_CHAIN_TYPE_INITIA
+		case 1:
+			// the submitter is whatever string the data-availability layer uses for it: nothing says it is an L1 address
+			bi = ophosttypes.BatchInfo{Submitter: fmt.Sprintf("batch-submitter-%d", w.rng.Intn(5)), ChainType: ophosttypes.BatchInfo_CHAIN_TYPE_INITIA}
+		case 2:
+			bi.Submitter = "celestia1" + strings.Repeat("q", 38)
+		}
 		if cur, err := l1.K.GetBridgeConfig(l1.Ctx, b.id); err == nil && w.rng.Chance(40) {
 			bi = cur.BatchInfo // the current batch info submitted once more (it still opens a new entry of the history)
 		}
